@@ -1,4 +1,5 @@
 """Per-property configuration: theorems that must exist, case families per tier, oracles."""
+import os
 from . import engine, oracles, run
 from .obs import canon, split_obs, parse_spec, parse_case
 from .oracles import strip_growth
@@ -82,9 +83,12 @@ class ReaderRunner:
 
     def search(self, res, seed, drift):
         """Oracle-only search on the thorough budget with fresh seeds (neighbourhood of the drift first)."""
+        import time as _t
+        deadline = _t.time() + float(os.environ.get('VERIF_SEARCH_SECS') or 420)
         for rnd in range(2):
             r2 = engine.Result(res.prop)
-            engine.run_reader_families(r2, self.search_fams, seed + 7919 * (rnd + 1), self.raw_oracle, self.keep_growth, exact=False)
+            engine.run_reader_families(r2, self.search_fams, seed + 7919 * (rnd + 1), self.raw_oracle, self.keep_growth, exact=False,
+                                       deadline=deadline)
             res.evaluations += r2.evaluations
             if r2.oracle_failures:
                 return r2.oracle_failures[0]
@@ -117,6 +121,33 @@ def seek_any_state(case, toks, log, items):
             any(oracles.strip_growth(t).startswith(('E:io', 'E:bl')) for t in toks)):
         return oracles.seek_restores_oracle(case, toks, items)
     return oracles.history_oracle(case, toks, items, positions=True, err_fields=True, sets=True)
+
+
+def faulty_case(case, toks):
+    return ('f' in case['script'] or case['seekfails'] != '-' or
+            any(oracles.strip_growth(t).startswith(('E:io', 'E:bl')) for t in toks))
+
+
+def hist_or_member(positions, err_fields, sets):
+    """failure-free histories by the abstract reader; histories with injected failures or refusing policies by what
+    still has to hold then: only genuine records, in order, never twice, every record set a contiguous run of the input"""
+    def f(case, toks, log, items):
+        if faulty_case(case, toks):
+            return oracles.membership_oracle(case, toks, items)
+        return oracles.history_oracle(case, toks, items, positions=positions, err_fields=err_fields, sets=sets)
+    return f
+
+
+def plain_or_any_state(fmt):
+    """C01 / C02: plain reading judged by the abstract reader; histories with injected failures, refusing policies and
+    seeks by the clause that whatever is returned after a successful seek is S's stream from there"""
+    def f(case, toks, log, items):
+        if case['fmt'] != fmt:
+            return None
+        return seek_any_state(case, toks, log, items) if ('f' in case['script'] or case['seekfails'] != '-' or
+                                                           any(oracles.strip_growth(t).startswith(('E:io', 'E:bl')) for t in toks)) \
+            else oracles.history_oracle(case, toks, items, positions=False, err_fields=False, sets=False)
+    return f
 
 
 def cfg_hist(case, toks, log, items):
@@ -155,22 +186,23 @@ PROPS = {}
 PROPS['C01'] = dict(
     theorems=[],
     runner=ReaderRunner(
-        quick=[('fa_exh', 5), ('fa_rand', 20000), ('fa_path', 1500)],
-        thorough=[('fa_exh', 7), ('fa_rand', 400000), ('fa_path', 20000)],
-        oracle=hist(False, False, False, 'fa')),
+        quick=[('fa_exh', 5), ('fa_rand', 20000), ('fa_path', 1500), ('fa_fault', 5000), ('fa_seek', 4000)],
+        thorough=[('fa_exh', 7), ('fa_rand', 400000), ('fa_path', 20000), ('fa_fault', 100000), ('fa_seek', 80000)],
+        oracle=plain_or_any_state('fa')),
     rule='every string over {>,LF,CR,A,space} up to the length bound x every capacity 3..len+2 x chunkings {whole,1,2}, '
          'plus grammar-based and mutated FASTA files under random capacities, policies and read scripts, and readers opened with '
          'from_path / from_path_with_capacity on a real file (`P` cases); '
-         'non-trivial = at least one record or error delivered and checked against S; distinct by case line',
+         'non-trivial = at least one record or error delivered and checked against S; distinct by case line; histories with injected '
+         'read / seek failures and refusing policies: what is read after a seek that succeeds is S\'s stream from the target on',
     assumptions=ASSUME_READER,
 )
 
 PROPS['C02'] = dict(
     theorems=[],
     runner=ReaderRunner(
-        quick=[('fq_exh', 5), ('fq_rand', 20000), ('fq_path', 1500)],
-        thorough=[('fq_exh', 7), ('fq_rand', 400000), ('fq_path', 20000)],
-        oracle=hist(False, False, False, 'fq')),
+        quick=[('fq_exh', 5), ('fq_rand', 20000), ('fq_path', 1500), ('fq_fault', 5000), ('fq_seek', 4000)],
+        thorough=[('fq_exh', 7), ('fq_rand', 400000), ('fq_path', 20000), ('fq_fault', 100000), ('fq_seek', 80000)],
+        oracle=plain_or_any_state('fq')),
     rule='every string over {@,+,LF,CR,A,space} up to the length bound x capacities x chunkings, plus grammar-based and '
          'mutated FASTQ files; non-trivial = at least one record delivered and checked against S',
     assumptions=ASSUME_READER,
@@ -179,9 +211,10 @@ PROPS['C02'] = dict(
 PROPS['C04'] = dict(
     theorems=[],
     runner=ReaderRunner(
-        quick=[('fa_hist', 8000), ('fq_hist', 8000), ('fa_two', 2000), ('fq_two', 2000)],
-        thorough=[('fa_hist', 150000), ('fq_hist', 150000), ('fa_seek', 50000), ('fq_seek', 50000), ('fa_two', 40000), ('fq_two', 40000)],
-        oracle=hist(False, False, True)),
+        quick=[('fa_hist', 8000), ('fq_hist', 8000), ('fa_two', 2000), ('fq_two', 2000), ('fa_fault', 4000), ('fq_fault', 4000)],
+        thorough=[('fa_hist', 150000), ('fq_hist', 150000), ('fa_seek', 50000), ('fq_seek', 50000), ('fa_two', 40000), ('fq_two', 40000),
+                  ('fa_fault', 80000), ('fq_fault', 80000)],
+        oracle=hist_or_member(False, False, True)),
     rule='random histories of next / owned next / read_record_set / read_record_set_exact(n) on three live record sets, '
          'all sets re-read after every set operation; non-trivial = a record or batch was delivered and accepted by the abstract reader',
     assumptions=ASSUME_READER,
@@ -430,10 +463,12 @@ class GroupRunner(ReaderRunner):
         engine.run_reader_families(res, self.fams[tier], seed, self.raw_oracle, self.keep_growth, self.exact, corpus, post=self._post)
 
     def search(self, res, seed, drift):
+        import time as _t
+        deadline = _t.time() + float(os.environ.get('VERIF_SEARCH_SECS') or 420)
         for rnd in range(2):
             r2 = engine.Result(res.prop)
             engine.run_reader_families(r2, self.search_fams, seed + 7919 * (rnd + 1), self.raw_oracle, self.keep_growth,
-                                       exact=False, post=self._post)
+                                       exact=False, post=self._post, deadline=deadline)
             res.evaluations += r2.evaluations
             if r2.oracle_failures:
                 return r2.oracle_failures[0]
@@ -473,6 +508,9 @@ def faults(case, toks, log, items):
 
 
 def errpos(case, toks, log, items):
+    if faulty_case(case, toks):
+        # after source failures: the errors reported once a seek has succeeded are S's, with all fields
+        return oracles.seek_restores_oracle(case, toks, items)
     if case['pol'].startswith('dul.') and not oracles.builtin_policy_check(case, log):
         # a limited policy refused as documented: what came before counts (the refusal itself is C09's subject)
         bl = next((k for k, t in enumerate(toks) if oracles.strip_growth(t).startswith('E:bl')), None)
@@ -538,9 +576,10 @@ PROPS['C14'] = dict(
 PROPS['C17'] = dict(
     theorems=[],
     runner=ReaderRunner(
-        quick=[('fq_exh', 5), ('fa_exh', 5), ('fq_rand', 15000), ('fa_rand', 5000), ('fq_cfg', 1000), ('fq_hist', 8000), ('fa_hist', 3000)],
+        quick=[('fq_exh', 5), ('fa_exh', 5), ('fq_rand', 15000), ('fa_rand', 5000), ('fq_cfg', 1000), ('fq_hist', 8000), ('fa_hist', 3000),
+               ('fq_fault', 6000), ('fa_fault', 3000)],
         thorough=[('fq_exh', 7), ('fa_exh', 7), ('fq_rand', 300000), ('fa_rand', 100000), ('fq_cfg', 30000), ('fa_cfg', 30000),
-                  ('fq_hist', 150000), ('fa_hist', 50000), ('fq_seek', 50000)],
+                  ('fq_hist', 150000), ('fa_hist', 50000), ('fq_seek', 50000), ('fq_fault', 100000), ('fa_fault', 50000)],
         oracle=errpos),
     rule='malformed inputs (exhaustive small strings, mutated files) at all capacities: error kind and every field compared with S, '
          'message text compared byte-exactly with the model of Display and checked to contain the reported values; the same through '
@@ -582,7 +621,8 @@ def jsonrt(case, toks, log, items):
 PROPS['C18'] = dict(
     theorems=[],
     runner=ReaderRunner(
-        quick=[('fa_alloc', 400), ('fq_alloc', 400), ('fa_amix', 1500), ('fq_amix', 1500), ('fa_ahist', 2500), ('fq_ahist', 2500)],
+        quick=[('fa_alloc', 400), ('fq_alloc', 400), ('fa_amix', 1500), ('fq_amix', 1500), ('fa_ahist', 2500), ('fq_ahist', 2500),
+               ('fa_afault', 2500), ('fq_afault', 2500)],
         thorough=[('fa_alloc', 8000), ('fq_alloc', 8000), ('fa_amix', 40000), ('fq_amix', 40000), ('fa_ahist', 80000), ('fq_ahist', 80000),
                   ('fa_afault', 40000), ('fq_afault', 40000)],
         oracle=alloc, keep_growth=True),
